@@ -164,6 +164,15 @@ class LinePart(Part):
                   ("240.0.0.255", "240.0.0.0", "247.255.255.255", "240.0.255.255")]
             nets = [ipaddress.ip_network(n) for n in (cfg.get("networks") or [])]
             text = refs.v4_text
+            # adversarial originals: the preimages of mask-shaped values under this very configuration
+            # (their image is mask-shaped, so whatever is written for them must be left alone by undo -
+            # or, if something else is written, undo must restore the original)
+            ref = ipdom.make(cfg)
+            for mtext in ("255.255.255.0", "0.0.0.255", "255.255.0.0", "255.255.255.255", "0.0.0.0",
+                          "255.255.255.252", "0.0.63.255", "128.0.0.0", "255.255.255.254"):
+                x = ref.deanonymize(int(ipaddress.IPv4Address(mtext)))
+                if not refs.is_mask32(x) and x not in W:
+                    W.append(x)
         else:
             W = ipdom.v6_window(self.seed, 4)[::3]
             nets = []
@@ -240,10 +249,19 @@ class FilePart(Part):
                         out.append({"B": B, "prefixes": pref, "networks": nets, "salt": salt})
         return out
 
-    def _tokens(self):
+    def _tokens(self, cfg):
         toks = []
         W4 = ipdom.v4_window(self.seed, 3)
         W4 += sorted(refs.MASKS32)[::4]
+        # adversarial originals: preimages of mask-shaped values under these options
+        nets = cfg["networks"]
+        if nets == "private":
+            nets = ["10.0.0.0/8", "172.16.0.0/12", "192.168.0.0/16"]
+        ref = ipdom.make_v4(["md5", cfg["salt"]], cfg["B"], cfg["prefixes"], nets or None)
+        for m in sorted(refs.MASKS32)[::3]:
+            x = ref.deanonymize(m)
+            if not refs.is_mask32(x) and x not in W4:
+                W4.append(x)
         for a in W4:
             sp = refs.v4_spellings(a)
             toks.append(("4", a, sp[0]))
@@ -259,7 +277,7 @@ class FilePart(Part):
 
     def run(self, cfg):
         res = Res()
-        toks = self._tokens()
+        toks = self._tokens(cfg)
         if "only" in cfg:
             toks = [tuple(cfg["only"])]
         root = seams.scratch_dir("c02")
